@@ -968,7 +968,14 @@ func (p *H265Payloader) Payload(mtu uint16, payload []byte) [][]byte { //nolint:
 		if p.AddDONL {
 			naluLen += 2
 		}
-		if naluLen <= int(mtu) { //nolint:nestif
+		// a unit whose payload fits one fragmentation unit also fits a single NAL unit packet:
+		// sending it as a lone FU would carry the S bit and never an E bit
+		fuRoom := int(mtu) - h265FragmentationUnitHeaderSize - h265NaluHeaderSize
+		if p.AddDONL {
+			fuRoom -= 2
+		}
+		fitsOneFU := fuRoom > 0 && len(nalu)-h265NaluHeaderSize <= fuRoom
+		if naluLen <= int(mtu) || fitsOneFU { //nolint:nestif
 			// this nalu fits into a single packet, either it can be emitted as
 			// a single nalu or appended to the previous aggregation packet
 			marginalAggregationSize := calcMarginalAggregationSize(nalu)
